@@ -641,7 +641,7 @@ def main(ctx):
 
     # ------------------------------------------------ one Recfile object used for several files (mc/sfreuse.py)
     from mc.sfreuse import reused_recfile_world
-    reused_recfile_world(ctx, "one-recfile-object-several-files", depth=ctx.pick(6, 8))
+    reused_recfile_world(ctx, "one-recfile-object-several-files", depth=ctx.pick(7, 9))
 
     # ------------------------------------------------ chunks of exactly / next to block marks (decimal and binary)
     # a writer that hands the rows to the file in blocks goes wrong only for chunk sizes that are exact multiples of
